@@ -184,4 +184,300 @@ theorem readBlocks_frame_take (crc : Bytes → Nat) (ok : Bytes → Bool) (fuel 
       simp only
       rw [if_pos (by simp; omega)]
 
+
+/-- frames completely inside the first `k` bytes (same recursion as `Props.C10.completeWithin`) -/
+def cw : List Bytes → Nat → Nat
+  | [], _ => 0
+  | p :: ps, k => if 8 + p.length ≤ k then 1 + cw ps (k - (8 + p.length)) else 0
+
+theorem readBlocks_take (crc : Bytes → Nat) (ok : Bytes → Bool) (ps : List Bytes) (k fuel : Nat)
+    (hwf : ∀ p ∈ ps, p.length + 4 < 4294967296 ∧ crc p < 4294967296 ∧ (∀ b ∈ p, b < 256))
+    (hok : ∀ p ∈ ps, ok p = true)
+    (hf : ((ps.flatMap (frame crc)).take k).length < fuel) :
+    ∃ st, readBlocks crc ok fuel ((ps.flatMap (frame crc)).take k) = (ps.take (cw ps k), st) := by
+  induction ps generalizing k fuel with
+  | nil =>
+    obtain ⟨f, rfl⟩ : ∃ f, fuel = f + 1 := ⟨fuel - 1, by omega⟩
+    exact ⟨.clean, by simp [readBlocks_nil]⟩
+  | cons p ps ih =>
+    obtain ⟨f, rfl⟩ : ∃ f, fuel = f + 1 := ⟨fuel - 1, by omega⟩
+    have hp := hwf p (by simp)
+    simp only [List.flatMap_cons, cw] at hf ⊢
+    by_cases hk : 8 + p.length ≤ k
+    · rw [if_pos hk]
+      have e : (frame crc p ++ ps.flatMap (frame crc)).take k
+          = frame crc p ++ (ps.flatMap (frame crc)).take (k - (8 + p.length)) := by
+        rw [List.take_append, List.take_of_length_le (by rw [frame_length]; exact hk), frame_length]
+      rw [e] at hf ⊢
+      rw [readBlocks_frame crc ok f p _ hp.1 hp.2.1 (hok p (by simp))]
+      obtain ⟨st, hst⟩ := ih (k - (8 + p.length)) f (fun q hq => hwf q (by simp [hq]))
+        (fun q hq => hok q (by simp [hq]))
+        (by simp only [List.length_append, frame_length] at hf; omega)
+      refine ⟨st, ?_⟩
+      rw [hst, Nat.add_comm 1, List.take_succ_cons]
+    · rw [if_neg hk]
+      have e : (frame crc p ++ ps.flatMap (frame crc)).take k = (frame crc p).take k := by
+        rw [List.take_append_of_le_length (by rw [frame_length]; omega)]
+      rw [e]
+      simpa using readBlocks_frame_take crc ok f p k hp.1 hp.2.1 (by omega)
+
+/-! ### crash at a write boundary -/
+
+theorem readBlocks_writes_take (crc : Bytes → Nat) (ok : Bytes → Bool) (ps : List Bytes)
+    (j fuel : Nat)
+    (hwf : ∀ p ∈ ps, p.length + 4 < 4294967296 ∧ crc p < 4294967296 ∧ (∀ b ∈ p, b < 256))
+    (hok : ∀ p ∈ ps, ok p = true) (hne : ∀ p ∈ ps, p ≠ [])
+    (hf : ((ps.flatMap (frameWrites crc)).take j).flatten.length < fuel) :
+    ∃ st, readBlocks crc ok fuel ((ps.flatMap (frameWrites crc)).take j).flatten
+      = (ps.take (j / 3), st) := by
+  induction ps generalizing j fuel with
+  | nil =>
+    obtain ⟨f, rfl⟩ : ∃ f, fuel = f + 1 := ⟨fuel - 1, by omega⟩
+    exact ⟨.clean, by simp [readBlocks_nil]⟩
+  | cons p ps ih =>
+    obtain ⟨f, rfl⟩ : ∃ f, fuel = f + 1 := ⟨fuel - 1, by omega⟩
+    have hp := hwf p (by simp)
+    have hpne : 0 < p.length := List.length_pos_iff.mpr (hne p (by simp))
+    have e : (p :: ps).flatMap (frameWrites crc)
+        = le32 (p.length + 4) :: le32 (crc p) :: p :: ps.flatMap (frameWrites crc) := by
+      simp [frameWrites]
+    rw [e] at hf ⊢
+    match j, hf with
+    | 0, _ => exact ⟨.clean, by simp [readBlocks_nil]⟩
+    | 1, _ =>
+      have e1 : ([le32 (p.length + 4)] : List Bytes).flatten = (frame crc p).take 4 := by
+        simp [frame, le32]
+      simp only [List.take_succ_cons, List.take_zero]
+      rw [e1]
+      simpa using readBlocks_frame_take crc ok f p 4 hp.1 hp.2.1 (by omega)
+    | 2, _ =>
+      have e2 : ([le32 (p.length + 4), le32 (crc p)] : List Bytes).flatten
+          = (frame crc p).take 8 := by
+        simp [frame, le32]
+      simp only [List.take_succ_cons, List.take_zero]
+      rw [e2]
+      simpa using readBlocks_frame_take crc ok f p 8 hp.1 hp.2.1 (by omega)
+    | j + 3, hf =>
+      have e3 : ((le32 (p.length + 4) :: le32 (crc p) :: p ::
+            ps.flatMap (frameWrites crc)).take (j + 3)).flatten
+          = frame crc p ++ ((ps.flatMap (frameWrites crc)).take j).flatten := by
+        simp [frame, List.take_succ_cons, List.append_assoc]
+      rw [e3] at hf ⊢
+      rw [readBlocks_frame crc ok f p _ hp.1 hp.2.1 (hok p (by simp))]
+      obtain ⟨st, hst⟩ := ih j f (fun q hq => hwf q (by simp [hq]))
+        (fun q hq => hok q (by simp [hq])) (fun q hq => hne q (by simp [hq]))
+        (by simp only [List.length_append, frame_length] at hf; omega)
+      refine ⟨st, ?_⟩
+      have : (j + 3) / 3 = j / 3 + 1 := by omega
+      rw [hst, this, List.take_succ_cons]
+
+/-! ### corruption -/
+
+/-- the reader's size and checksum tests on the bytes at the head of `bs` -/
+def acceptsHead (crc : Bytes → Nat) (bs : Bytes) : Bool :=
+  match rd32 bs with
+  | none => false
+  | some (size, r1) =>
+    decide (4 ≤ size) &&
+    match rd32 r1 with
+    | none => false
+    | some (sum, r2) => decide (size - 4 ≤ r2.length) && decide (crc (r2.take (size - 4)) = sum)
+
+theorem readBlocks_reject (crc : Bytes → Nat) (ok : Bytes → Bool) (fuel : Nat) (bs : Bytes)
+    (hne : bs ≠ []) (hacc : acceptsHead crc bs = false) :
+    readBlocks crc ok fuel bs = ([], .err) := by
+  cases fuel with
+  | zero => rw [readBlocks]
+  | succ f =>
+    rw [readBlocks_step _ _ _ _ hne]
+    unfold acceptsHead at hacc
+    cases h1 : rd32 bs with
+    | none => rfl
+    | some x =>
+      obtain ⟨size, r1⟩ := x
+      rw [h1] at hacc
+      simp only at hacc ⊢
+      by_cases hs : size < 4
+      · rw [if_pos hs]
+      · rw [if_neg hs]
+        cases h2 : rd32 r1 with
+        | none => rfl
+        | some y =>
+          obtain ⟨sum, r2⟩ := y
+          rw [h2] at hacc
+          simp only at hacc ⊢
+          by_cases hl : r2.length < size - 4
+          · rw [if_pos hl]
+          · rw [if_neg hl]
+            have hc : crc (r2.take (size - 4)) ≠ sum := by
+              intro hc
+              simp [hc] at hacc
+              omega
+            simp [hc]
+
+
+/-! ### whole-file statements -/
+
+theorem readFile_cons (crc : Bytes → Nat) (ok : Bytes → Bool) (r : Bytes) :
+    readFile crc ok (walVersion :: r) = some (readBlocks crc ok (r.length + 1) r) := by
+  simp [readFile]
+
+theorem readFile_file (crc : Bytes → Nat) (ok : Bytes → Bool) (ps : List Bytes)
+    (hwf : ∀ p ∈ ps, p.length + 4 < 4294967296 ∧ crc p < 4294967296 ∧ (∀ b ∈ p, b < 256))
+    (hok : ∀ p ∈ ps, ok p = true) :
+    readFile crc ok (file crc ps) = some (ps, St.clean) := by
+  unfold file
+  rw [readFile_cons]
+  have h := readBlocks_frames_append crc ok ps [] ((ps.flatMap (frame crc)).length + 1) hwf hok
+    (by have := flatMap_frame_length_ge crc ps; omega)
+  rw [List.append_nil] at h
+  rw [h]
+  obtain ⟨f, hf⟩ : ∃ f, (ps.flatMap (frame crc)).length + 1 - ps.length = f + 1 :=
+    ⟨(ps.flatMap (frame crc)).length - ps.length, by
+      have := flatMap_frame_length_ge crc ps; omega⟩
+  rw [hf, readBlocks_nil]
+  simp
+
+theorem file_take (crc : Bytes → Nat) (ps : List Bytes) (k : Nat) (hk : 1 ≤ k) :
+    (file crc ps).take k = walVersion :: (ps.flatMap (frame crc)).take (k - 1) := by
+  obtain ⟨k', rfl⟩ : ∃ k', k = k' + 1 := ⟨k - 1, by omega⟩
+  simp [file]
+
+theorem readFile_truncate (crc : Bytes → Nat) (ok : Bytes → Bool) (ps : List Bytes) (k : Nat)
+    (hwf : ∀ p ∈ ps, p.length + 4 < 4294967296 ∧ crc p < 4294967296 ∧ (∀ b ∈ p, b < 256))
+    (hok : ∀ p ∈ ps, ok p = true) (hk : 1 ≤ k) :
+    ∃ st, readFile crc ok ((file crc ps).take k) = some (ps.take (cw ps (k - 1)), st) := by
+  rw [file_take crc ps k hk, readFile_cons]
+  obtain ⟨st, hst⟩ := readBlocks_take crc ok ps (k - 1) _ hwf hok (Nat.lt_succ_self _)
+  exact ⟨st, by rw [hst]⟩
+
+theorem writes_take_flatten (crc : Bytes → Nat) (ps : List Bytes) (n : Nat) (hn : 1 ≤ n) :
+    ((writes crc ps).take n).flatten
+      = walVersion :: ((ps.flatMap (frameWrites crc)).take (n - 1)).flatten := by
+  obtain ⟨n', rfl⟩ : ∃ n', n = n' + 1 := ⟨n - 1, by omega⟩
+  simp [writes]
+
+theorem readFile_crash (crc : Bytes → Nat) (ok : Bytes → Bool) (ps : List Bytes) (n : Nat)
+    (hwf : ∀ p ∈ ps, p.length + 4 < 4294967296 ∧ crc p < 4294967296 ∧ (∀ b ∈ p, b < 256))
+    (hok : ∀ p ∈ ps, ok p = true) (hne : ∀ p ∈ ps, p ≠ []) (hn : 1 ≤ n) :
+    ∃ st, readFile crc ok ((writes crc ps).take n).flatten
+      = some (ps.take ((n - 1) / 3), st) := by
+  rw [writes_take_flatten crc ps n hn, readFile_cons]
+  obtain ⟨st, hst⟩ := readBlocks_writes_take crc ok ps (n - 1) _ hwf hok hne (Nat.lt_succ_self _)
+  exact ⟨st, by rw [hst]⟩
+
+/-- byte offset in the file at which frame `m` starts (same term as `Props.C10.frameStart`) -/
+def fstart (ps : List Bytes) (m : Nat) : Nat := 1 + ((ps.take m).map (fun p => 8 + p.length)).sum
+
+theorem flatMap_frame_length (crc : Bytes → Nat) (ps : List Bytes) :
+    (ps.flatMap (frame crc)).length = (ps.map (fun p => 8 + p.length)).sum := by
+  induction ps with
+  | nil => simp
+  | cons p ps ih => simp [frame_length, ih]
+
+theorem readFile_corrupt (crc : Bytes → Nat) (ok : Bytes → Bool) (ps : List Bytes) (m i b : Nat)
+    (hwf : ∀ p ∈ ps, p.length + 4 < 4294967296 ∧ crc p < 4294967296 ∧ (∀ b ∈ p, b < 256))
+    (hok : ∀ p ∈ ps, ok p = true) (hm : m < ps.length) (hi : fstart ps m ≤ i)
+    (hacc : acceptsHead crc (((file crc ps).set i b).drop (fstart ps m)) = false) :
+    readFile crc ok ((file crc ps).set i b) = some (ps.take m, St.err) := by
+  have hA : fstart ps m = ((ps.take m).flatMap (frame crc)).length + 1 := by
+    rw [flatMap_frame_length, fstart, Nat.add_comm]
+  have hB : 0 < ((ps.drop m).flatMap (frame crc)).length := by
+    have := flatMap_frame_length_ge crc (ps.drop m)
+    have : 0 < (ps.drop m).length := by simp; omega
+    omega
+  have hsplit : file crc ps
+      = walVersion :: ((ps.take m).flatMap (frame crc) ++ (ps.drop m).flatMap (frame crc)) := by
+    rw [← List.flatMap_append, List.take_append_drop, file]
+  rw [hA] at hi hacc
+  obtain ⟨i', rfl⟩ : ∃ i', i = i' + 1 := ⟨i - 1, by omega⟩
+  have hset : (file crc ps).set (i' + 1) b = walVersion :: ((ps.take m).flatMap (frame crc) ++
+      ((ps.drop m).flatMap (frame crc)).set (i' - ((ps.take m).flatMap (frame crc)).length) b) := by
+    rw [hsplit, List.set_cons_succ, List.set_append_right _ _ (by omega)]
+  rw [hset] at hacc ⊢
+  rw [List.drop_succ_cons, List.drop_left] at hacc
+  rw [readFile_cons]
+  rw [readBlocks_frames_append crc ok (ps.take m) _ _
+    (fun p hp => hwf p (List.mem_of_mem_take hp)) (fun p hp => hok p (List.mem_of_mem_take hp))
+    (by have := flatMap_frame_length_ge crc (ps.take m)
+        simp only [List.length_append]; omega)]
+  rw [readBlocks_reject crc ok _ _ (by
+    intro h
+    have := congrArg List.length h
+    simp only [List.length_set, List.length_nil] at this
+    omega) hacc]
+  simp
+
+
+/-! ### crash at a write boundary, payloads possibly empty -/
+
+theorem readBlocks_writes_take_any (crc : Bytes → Nat) (ok : Bytes → Bool) (ps : List Bytes)
+    (j fuel : Nat)
+    (hwf : ∀ p ∈ ps, p.length + 4 < 4294967296 ∧ crc p < 4294967296 ∧ (∀ b ∈ p, b < 256))
+    (hok : ∀ p ∈ ps, ok p = true)
+    (hf : ((ps.flatMap (frameWrites crc)).take j).flatten.length < fuel) :
+    ∃ c st, readBlocks crc ok fuel ((ps.flatMap (frameWrites crc)).take j).flatten
+      = (ps.take c, st) ∧ j / 3 ≤ c ∧ c ≤ j / 3 + 1 := by
+  induction ps generalizing j fuel with
+  | nil =>
+    obtain ⟨f, rfl⟩ : ∃ f, fuel = f + 1 := ⟨fuel - 1, by omega⟩
+    exact ⟨j / 3, .clean, by simp [readBlocks_nil], Nat.le_refl _, Nat.le_succ _⟩
+  | cons p ps ih =>
+    obtain ⟨f, rfl⟩ : ∃ f, fuel = f + 1 := ⟨fuel - 1, by omega⟩
+    have hp := hwf p (by simp)
+    have e : (p :: ps).flatMap (frameWrites crc)
+        = le32 (p.length + 4) :: le32 (crc p) :: p :: ps.flatMap (frameWrites crc) := by
+      simp [frameWrites]
+    rw [e] at hf ⊢
+    match j, hf with
+    | 0, _ => exact ⟨0, .clean, by simp [readBlocks_nil]⟩
+    | 1, _ =>
+      have e1 : ([le32 (p.length + 4)] : List Bytes).flatten = (frame crc p).take 4 := by
+        simp [frame, le32]
+      simp only [List.take_succ_cons, List.take_zero]
+      rw [e1]
+      obtain ⟨st, hst⟩ := readBlocks_frame_take crc ok f p 4 hp.1 hp.2.1 (by omega)
+      exact ⟨0, st, by simpa using hst, by omega, by omega⟩
+    | 2, hf =>
+      simp only [List.take_succ_cons, List.take_zero] at hf ⊢
+      by_cases hpe : p = []
+      · subst hpe
+        have e2 : ([le32 (([] : Bytes).length + 4), le32 (crc [])] : List Bytes).flatten
+            = frame crc [] ++ [] := by
+          simp [frame, le32]
+        rw [e2] at hf ⊢
+        rw [readBlocks_frame crc ok f [] _ hp.1 hp.2.1 (hok [] (by simp))]
+        obtain ⟨f', rfl⟩ : ∃ f', f = f' + 1 :=
+          ⟨f - 1, by simp only [List.length_append, frame_length] at hf; omega⟩
+        exact ⟨1, .clean, by simp [readBlocks_nil], by omega, by omega⟩
+      · have hpne : 0 < p.length := List.length_pos_iff.mpr hpe
+        have e2 : ([le32 (p.length + 4), le32 (crc p)] : List Bytes).flatten
+            = (frame crc p).take 8 := by
+          simp [frame, le32]
+        rw [e2]
+        obtain ⟨st, hst⟩ := readBlocks_frame_take crc ok f p 8 hp.1 hp.2.1 (by omega)
+        exact ⟨0, st, by simpa using hst, by omega, by omega⟩
+    | j + 3, hf =>
+      have e3 : ((le32 (p.length + 4) :: le32 (crc p) :: p ::
+            ps.flatMap (frameWrites crc)).take (j + 3)).flatten
+          = frame crc p ++ ((ps.flatMap (frameWrites crc)).take j).flatten := by
+        simp [frame, List.take_succ_cons, List.append_assoc]
+      rw [e3] at hf ⊢
+      rw [readBlocks_frame crc ok f p _ hp.1 hp.2.1 (hok p (by simp))]
+      obtain ⟨c, st, hst, h1, h2⟩ := ih j f (fun q hq => hwf q (by simp [hq]))
+        (fun q hq => hok q (by simp [hq]))
+        (by simp only [List.length_append, frame_length] at hf; omega)
+      refine ⟨c + 1, st, ?_, by omega, by omega⟩
+      rw [hst, List.take_succ_cons]
+
+theorem readFile_crash_any (crc : Bytes → Nat) (ok : Bytes → Bool) (ps : List Bytes) (n : Nat)
+    (hwf : ∀ p ∈ ps, p.length + 4 < 4294967296 ∧ crc p < 4294967296 ∧ (∀ b ∈ p, b < 256))
+    (hok : ∀ p ∈ ps, ok p = true) (hn : 1 ≤ n) :
+    ∃ c st, readFile crc ok ((writes crc ps).take n).flatten = some (ps.take c, st)
+      ∧ (n - 1) / 3 ≤ c ∧ c ≤ (n - 1) / 3 + 1 := by
+  rw [writes_take_flatten crc ps n hn, readFile_cons]
+  obtain ⟨c, st, hst, h1, h2⟩ :=
+    readBlocks_writes_take_any crc ok ps (n - 1) _ hwf hok (Nat.lt_succ_self _)
+  exact ⟨c, st, by rw [hst], h1, h2⟩
+
 end SigModel.Lemmas.C10
